@@ -303,3 +303,30 @@ Lemma c9l_forall_judged L pfx ho (l : list (str * parsed)) b pd' (ds : list decl
 Proof.
   intros Hho Hwf Hin Hall. apply Forall_forall. intros d Hd. exact (c9l_decl_judged L pfx ho l Hho Hwf b pd' Hin d (Hall d Hd)).
 Qed.
+
+(* ---------------------------------------------------------------- a workspace in no class *)
+(* c9m_lknown_ws = None: no mention, no definition, no parent, no helper of any crate is in a class - the conditional
+   clauses of the judgement then all apply *)
+Theorem c9m_lknown_ws_none L pfx (ws : c9m_ws) : c9m_lknown_ws L pfx ws = None ->
+  forall b f, In (b, f) ws ->
+    (forall tp form i, In tp (c09_tposs f) -> In (form, i) (c09_type_ids (c9t_type tp)) -> c9m_lknown L pfx ws b f tp i = None) /\
+    (forall e, In e (c9m_entities ws b) ->
+       match c9e_kind e with
+       | C9KInner => c09_inner_site_class L e = None
+       | _ => c9m_def_class L e = None /\ c09_parent_site_class L e = None
+       end).
+Proof.
+  intros H b f Hf. unfold c9m_lknown_ws in H.
+  assert (Hbf : match c9m_lknown_file L pfx ws b f with Some k => Some k | None => c9m_lknown_crate L ws b end = None).
+  { apply (c09_first_none _ H). apply in_map_iff. exists (b, f). split; [reflexivity|exact Hf]. }
+  destruct (c9m_lknown_file L pfx ws b f) as [k|] eqn:Kf; [discriminate|]. split.
+  - intros tp form i Htp Hi. apply (c09_first_none _ Kf). apply in_flat_map. exists tp. split; [exact Htp|].
+    apply in_map_iff. exists (form, i). split; [reflexivity|exact Hi].
+  - intros e He. unfold c9m_lknown_crate in Hbf.
+    assert (K : forall x, In x (match c9e_kind e with
+                                | C9KInner => [c09_inner_site_class L e]
+                                | _ => [c9m_def_class L e; c09_parent_site_class L e]
+                                end) -> x = None).
+    { intros x Hx. apply (c09_first_none _ Hbf). apply in_flat_map. exists e. split; [exact He|exact Hx]. }
+    destruct (c9e_kind e); try (split; apply K; cbn; auto). apply K. now left.
+Qed.
